@@ -488,7 +488,21 @@ fn regular_case(rng: &mut Rng, rep: &mut Report) {
 
 fn singular_case(rng: &mut Rng, rep: &mut Report, n: usize) {
     {
-        let sys = gen_singular(rng, n);
+        let mut sys = gen_singular(rng, n);
+        // singularity does not depend on the scale of the equations: half of the systems are
+        // multiplied by a power of two (exact, so the matrix stays exactly singular)
+        if rng.bool() {
+            let scale = 2f64.powi(rng.int(-20, 40) as i32);
+            for v in sys.a.iter_mut() {
+                *v *= scale;
+            }
+            if let Some(b) = sys.b.as_mut() {
+                for v in b.iter_mut() {
+                    *v *= scale;
+                }
+            }
+            rep.count("singular_systems_scaled", 1);
+        }
         let start: Vec<f64> = (0..n).map(|_| rng.int(-8, 8) as f64 * 0.5).collect();
         let tol = rng.log10(-10.0, -3.0);
         let n_max = 10 + rng.below(40);
